@@ -34,10 +34,10 @@ ASSUMPTIONS = [
     'a `_disconnect` notification for a descriptor that was closed without being discarded is tolerated (it is how the poller '
     'cleans up); read/write readiness events for it are not',
 ]
-OUTSIDE = ['KQueue', 'hang-up/error bits (exercised through the socket components in C12)', 'the control pipe wake-up (C03)']
+OUTSIDE = ['KQueue', 'error bits (exercised through the socket components in C12)', 'the control pipe wake-up (C03)']
 
 
-def make_harness(poller_name, n_ops, n_fds=2, iterations_in_history=True):
+def make_harness(poller_name, n_ops, n_fds=2, iterations_in_history=True, hangups=False):
     def harness(g):
         kernel = StubKernel(first_free=1000)
         saved = PL.select
@@ -123,12 +123,18 @@ def make_harness(poller_name, n_ops, n_fds=2, iterations_in_history=True):
             for slot, o in enumerate(live):
                 if o is None:
                     continue
-                o.readable = pattern in ('all', 'read-only')
+                o.readable = pattern in ('all', 'read-only', 'hup+data')
                 o.writable = pattern in ('all', 'write-only')
+                # the peer hung up: with unread data still pending (`hup+data`) or with nothing left (`hup`)
+                o.hup = pattern in ('hup+data', 'hup')
             preen_round = poller_name == 'Select' and bool(zombies)
             ev = generate_events(root._lock, 0)
             mark = len(log)
-            poller._generate_events(ev)
+            try:
+                poller._generate_events(ev)
+            except Exception as e:
+                # under the dispatcher this becomes an `exception` event in every round, and nobody gets readiness events
+                fail('poller-raised', {'poller': poller_name, 'closed_without_discard': bool(zombies)}, 'iteration %d: %r' % (step, e))
             for _ in range(4):
                 if not len(root._queue):
                     break
@@ -138,8 +144,22 @@ def make_harness(poller_name, n_ops, n_fds=2, iterations_in_history=True):
             if exc:
                 fail('unexpected-exception', {'poller': poller_name}, str(exc[:2]))
             expected = []
+            expected_disc = []
             for o in fds:
                 if o.closed:
+                    continue
+                if pattern == 'hup':
+                    # nothing left to read: poll/epoll report the hang-up itself (whatever the mask), the poller turns it
+                    # into _disconnect and forgets the descriptor; select reports it readable (recv() will return b'')
+                    if poller_name == 'Select':
+                        if o in reg_r:
+                            expected.append(('_read', o, (reg_r[o],)))
+                    elif o in reg_r or o in reg_w:
+                        expected_disc.append(o)
+                    continue
+                if pattern == 'hup+data' and o not in reg_r and o in reg_w and poller_name != 'Select':
+                    # not interested in reading: all the kernel has to say about this descriptor is the hang-up
+                    expected_disc.append(o)
                     continue
                 if o in reg_r and o.readable:
                     expected.append(('_read', o, (reg_r[o],)))
@@ -166,7 +186,19 @@ def make_harness(poller_name, n_ops, n_fds=2, iterations_in_history=True):
                     clause = 'readiness-event-wrong-channel'
                 w = {'poller': poller_name, 'zombie_number_shared': any(any(z.no == x[1].no for z in zombies) for x in missing + extra)}
                 fail(clause, w, 'iteration %d: got %s expected %s' % (step, got_rw, expected))
+            got_disc = [x[1] for x in got if x[0] == '_disconnect' and x[1] not in zombies]
+            if expected_disc or (pattern in ('hup', 'hup+data') and got_disc):
+                if sorted(o.label for o in got_disc) != sorted(o.label for o in expected_disc):
+                    # with data still pending the read events come first: a _disconnect in the same round cuts the stream short
+                    fail('hangup-disconnect-mismatch', {'poller': poller_name, 'pattern': pattern}, 'iteration %d: _disconnect for %s, expected for %s' % (step, got_disc, expected_disc))
+                for o in expected_disc:
+                    reg_r.pop(o, None)
+                    reg_w.pop(o, None)
+            for o in fds:
+                o.hup = False
             for x in got:
+                if x[0] == '_disconnect' and x[1] in expected_disc:
+                    continue
                 if x[0] == '_disconnect':
                     if x[1] not in zombies:
                         fail('spurious-disconnect', {'poller': poller_name}, str(x))
@@ -193,6 +225,9 @@ def make_harness(poller_name, n_ops, n_fds=2, iterations_in_history=True):
             ops.append(('poll', 'all'))
             ops.append(('poll', 'read-only'))
             ops.append(('poll', 'write-only'))
+            if hangups:
+                ops.append(('poll', 'hup+data'))
+                ops.append(('poll', 'hup'))
             ops.append(('stop',))
             op = g.pick('op%d' % step, ops)
             history.append(op)
@@ -268,6 +303,12 @@ def parts(tier):
         out.append(Part(name, make_harness(name, n), bounds={'poller': name, 'history_length': n, 'descriptors': 2,
                         'ops': 'addReader/addWriter/removeReader/removeWriter/discard/close/open(re-use of number)/poll iteration with chosen readiness'},
                         encoded=ENC[name], budget_s=80 if tier == 'quick' else 1500))
+    for name in ('Select', 'Poll', 'EPoll'):
+        nh, nf = (4, 1) if tier == 'quick' else (5, 2)
+        out.append(Part('hangup-' + name, make_harness(name, nh, n_fds=nf, hangups=True),
+                        bounds={'poller': name, 'history_length': nh, 'descriptors': nf,
+                                'ops': 'as above plus poll iterations in which the peer has hung up, with or without unread data'},
+                        encoded=ENC[name], budget_s=60 if tier == 'quick' else 900))
     return out
 
 
